@@ -7,8 +7,16 @@ from .flow import Flow
 from .index import AnalysisError
 
 
+from .consts import add_module_constants, _numeric_literal  # noqa: E402
+
+
+def _all_params(f):
+    a = f.node.args
+    return {x.arg for x in a.posonlyargs + a.args + a.kwonlyargs + [y for y in (a.vararg, a.kwarg) if y is not None]}
+
+
 def mkflow(ix, site, local_types=None, which=0, tab=None, env=None,
-           extra_family=None, erase_broadcast=True, forward_attrs=False, scalars=()):
+           extra_family=None, erase_broadcast=True, forward_attrs=False, scalars=(), keep_casts=False):
     f = ix.func(site, which) if isinstance(site, str) else site
     canon = make_canon(ix, f.cls, extra_family, local_types)
     conv = Conv(tab or Table(), env or {}, canon)
@@ -18,18 +26,14 @@ def mkflow(ix, site, local_types=None, which=0, tab=None, env=None,
     fl = Flow(f, conv)
     fl.conv.erase_broadcast = erase_broadcast
     fl.conv.forward_attrs = forward_attrs
+    fl.conv.keep_casts = keep_casts      # float(x) stays a conversion (rules about typing); else it is erased as numerically neutral
     fl.canon = canon
     fl.ix = ix
     fl.known = known_functions()
     # numeric module-level constants that are new to the reviewed tree stand for their value
     # (replacing a literal by a named constant changes nothing)
     if fl.known is not None:
-        for st in f.module.tree.body:
-            if isinstance(st, ast.Assign) and len(st.targets) == 1 and isinstance(st.targets[0], ast.Name) and \
-                    _numeric_literal(st.value):
-                nm = st.targets[0].id
-                if '%s::=%s' % (f.module.relpath, nm) not in fl.known and nm not in fl.conv.env:
-                    fl.conv.env[nm] = Conv(fl.tab, {}, canon).expr(st.value)
+        add_module_constants(fl.conv, f.module, fl.known, skip=_all_params(f))
     fl.run()
     if getattr(fl, 'unfollowed', None):
         UNFOLLOWED.setdefault(f.site, set()).update(fl.unfollowed)
@@ -38,20 +42,6 @@ def mkflow(ix, site, local_types=None, which=0, tab=None, env=None,
 
 # site -> helpers (new to the reviewed tree) that the flow of that function could not follow
 UNFOLLOWED = {}
-
-
-def _numeric_literal(n):
-    if isinstance(n, (ast.Tuple, ast.List)):
-        # a literal tuple / list of words or numbers (e.g. the boolean words of the parser)
-        return bool(n.elts) and all(_numeric_literal(e) or (isinstance(e, ast.Constant) and isinstance(e.value, str))
-                                    for e in n.elts)
-    if isinstance(n, ast.Constant):
-        return isinstance(n.value, (int, float)) and not isinstance(n.value, bool)
-    if isinstance(n, ast.UnaryOp) and isinstance(n.op, (ast.USub, ast.UAdd)):
-        return _numeric_literal(n.operand)
-    if isinstance(n, ast.BinOp) and isinstance(n.op, (ast.Add, ast.Sub, ast.Mult, ast.Div, ast.Pow)):
-        return _numeric_literal(n.left) and _numeric_literal(n.right)
-    return False
 
 
 _IX = []
@@ -113,9 +103,12 @@ def spec(fl, text, bind=None):
     an empty environment)."""
     env = {}
     base = Conv(fl.tab, {}, getattr(fl, 'canon', None) or fl.conv.canon)
+    base.keep_casts = getattr(fl.conv, 'keep_casts', False)
     for k, v in (bind or {}).items():
         env[k] = base.parse(v) if isinstance(v, str) else v
-    return Conv(fl.tab, env, base.canon).parse(text)
+    c = Conv(fl.tab, env, base.canon)
+    c.keep_casts = base.keep_casts = getattr(fl.conv, 'keep_casts', False)
+    return c.parse(text)
 
 
 def code(fl, text):
@@ -282,6 +275,7 @@ def inline_calls(ix, fl, rf, module_relpath, names, depth=3):
             if p not in env:
                 env[p] = Conv(fl.tab, {}, None).expr(d)
         sub = Flow(tgt, Conv(fl.tab, env, None))
+        add_module_constants(sub.conv, tgt.module, known_functions())
         sub.run()
         rets = sub.of('return')
         if len(rets) != 1 or rets[0].value is None:
@@ -616,6 +610,30 @@ def dict_facts(fl):
     return out
 
 
+def merged_store(fl, stores):
+    """the value an attribute holds after the given store events (in program order), as one guarded value:
+    `if c: x = a  else: x = b` and `x = a if c else b` fold to the same guard(c, a, b); a later store overrides an
+    earlier one where its conditions hold.  Where no store is reached the value is the constant UNSET."""
+    if not stores:
+        raise AnalysisError('no store')
+    if any(e.loops for e in stores):
+        raise AnalysisError('a store inside a loop')
+    val = fl.tab.atom('const', ('UNSET',))
+    for e in stores:
+        if e.value is None:
+            raise AnalysisError('a store without a value')
+        v = e.value
+        for g in reversed([g for g in e.guards if not g.early]):
+            if g.rf is None:
+                raise AnalysisError('a store under a condition the analysis does not follow')
+            v = fl.tab.atom('guard', (g.rf, v, val) if g.positive else (g.rf, val, v))
+        early = [g for g in e.guards if g.early]
+        if early:
+            raise AnalysisError('a store after a conditional exit')
+        val = v
+    return val
+
+
 def unmut(fl, rf):
     """the container behind a `mutated(...)` marker (a list that was appended to in a helper and handed back)"""
     a = atom_of(fl, rf)
@@ -648,9 +666,19 @@ def has_guard(rf):
 _RET_LEN = {}
 
 
+# names that a call `x.name(...)` may equally resolve to on a library object (dict, list, str, ndarray ...): the
+# definitions in the analysed tree say nothing about those
+_LIBRARY_METHODS = set(dir(dict)) | set(dir(list)) | set(dir(str)) | set(dir(tuple)) | set(dir(set)) | set(dir(bytes)) | {
+    'min', 'max', 'sum', 'mean', 'std', 'var', 'prod', 'sort', 'argsort', 'reshape', 'astype', 'take', 'dot', 'flatten',
+    'ravel', 'transpose', 'any', 'all', 'cumsum', 'cumprod', 'clip', 'fill', 'nonzero', 'searchsorted', 'squeeze',
+    'tolist', 'item', 'round', 'argmin', 'argmax', 'repeat', 'swapaxes', 'view', 'resize', 'partition', 'argpartition',
+    'read', 'readline', 'readlines', 'write', 'load', 'loads', 'dump', 'dumps', 'open', 'close', 'run', 'sample'}
+
+
 def _ret_len(ix):
-    """fn-name -> n when exactly one module-level function of that name exists in the analysed tree and every one of its
-    returns is a tuple literal of n items (so `f(x)[-1]` is `f(x)[n-1]`)"""
+    """fn-name -> n when every function or method of that name in the analysed tree returns, at every return, a tuple
+    literal of n items (so `f(x)[-1]` is `f(x)[n-1]` and `g(*f(x))` is `g(f(x)[0], ..., f(x)[n-1])` whichever
+    definition the call reaches)"""
     key = id(ix)
     if key not in _RET_LEN:
         table = {}
@@ -658,20 +686,27 @@ def _ret_len(ix):
         for m in ix.modules.values():
             for name, f in m.functions.items():
                 seen.setdefault(name, []).append(f)
+            for c in m.classes.values():
+                for name, lst in c.methods.items():
+                    seen.setdefault(name, []).extend(lst)
         for name, fs in seen.items():
-            if len(fs) != 1:
-                continue
-            rets = [n for n in ast.walk(fs[0].node) if isinstance(n, ast.Return)]
-            nested = {id(r) for d in ast.walk(fs[0].node) if isinstance(d, (ast.FunctionDef, ast.Lambda)) and d is not fs[0].node
-                      for r in ast.walk(d) if isinstance(r, ast.Return)}
-            rets = [r for r in rets if id(r) not in nested]
-            lens = {len(r.value.elts) if isinstance(r.value, ast.Tuple) and not any(isinstance(e, ast.Starred) for e in r.value.elts)
-                    else None for r in rets}
-            if rets and len(lens) == 1 and None not in lens:
+            lens = set()
+            for f_ in fs:
+                rets = [n for n in ast.walk(f_.node) if isinstance(n, ast.Return)]
+                nested = {id(r) for d in ast.walk(f_.node) if isinstance(d, (ast.FunctionDef, ast.Lambda)) and d is not f_.node
+                          for r in ast.walk(d) if isinstance(r, ast.Return)}
+                rets = [r for r in rets if id(r) not in nested]
+                if not rets and any(isinstance(x, ast.Raise) for x in ast.walk(f_.node)):
+                    continue        # an abstract placeholder (raise NotImplementedError)
+                if not rets:
+                    lens.add(None)
+                lens |= {len(r.value.elts) if isinstance(r.value, ast.Tuple) and not any(isinstance(e, ast.Starred) for e in r.value.elts)
+                         else None for r in rets}
+            if len(lens) == 1 and None not in lens and name not in _LIBRARY_METHODS:
                 table['fn:' + name] = lens.pop()
         _RET_LEN.clear()
         _RET_LEN[key] = table
-    return lambda fn: _RET_LEN[key].get(fn)
+    return lambda fn: _RET_LEN[key].get('fn:' + fn[3:].rsplit('.', 1)[-1] if isinstance(fn, str) and fn.startswith('fn:') else fn)
 
 
 def holds_at(fl, e, cond):
